@@ -992,9 +992,13 @@ class FileStorage(
                     if not current_data:
                         current_data = self._loadBack_impl(oid, cdataptr)[0]
 
-                    if data_to_be_undone != current_data:
+                    if (data_to_be_undone != current_data
+                            or self.is_blob_record(current_data)):
                         # OK, so the current data is different from
-                        # the data being undone.  We can't just copy:
+                        # the data being undone.  We can't just copy.
+                        # (The records of a blob all look the same: its
+                        # data is in the blob files, and a later
+                        # revision would be lost.)
                         copy = False
 
                         if not pre:
